@@ -1,7 +1,7 @@
 \* Design-level check of the symbolic coin machine, one call deeper than the quick configuration.
 SPECIFICATION Spec
 CONSTANTS MaxOps = 4  Tries = 3
-  MFields <- MFieldsAll  SeedSet <- SeedsOne  DigestAtoms = {1, 2}  NonceSet <- NoncesTwo
+  MFields <- MFieldsAll  SeedSet <- SeedsTwo  DigestAtoms = {1, 2}  NonceSet <- NoncesTwo
   Counts = {0, 1, 4}  Sizes = {2, 8}  Degs = {1, 2, 3}
 INVARIANT Deterministic Sensitive Fresh Promised CounterOK
 CHECK_DEADLOCK FALSE
